@@ -19,19 +19,31 @@ use vcore::{catch, pick, vassert, Cx, Res};
 // ---------------------------------------------------------------------------------------------
 // Paths
 
-pub const SEGS: [&str; 6] = ["a", "aa", "b", "ab", "a_", "é"];
+/// Segment names. 0..6: the prefix-related family; 6..9: an existing name followed by a DIGIT (the only
+/// characters valid in an identifier that sort below `:`, so whole-path string order and per-node segment order
+/// disagree: `a::x` < `a2` < `a::x`...); 9..12: an existing name followed by another character below `:` -- these
+/// are NOT valid identifiers, paths containing them are invalid and their behaviour is documented as undefined.
+pub const SEGS: [&str; 12] = ["a", "aa", "b", "ab", "a_", "é", "a2", "aa1", "b9", "a-2", "a.x", "a$"];
+/// segments `0..N_VALID` are valid identifiers
+pub const N_VALID: u8 = 9;
 pub const MAX_DEPTH: usize = 6;
+/// all paths up to this depth are pre-built `&'static str`s; deeper ones are interned on demand
+const POOL_DEPTH: usize = 4;
+
+pub fn path_valid(p: &[u8]) -> bool {
+    p.iter().all(|s| *s % SEGS.len() as u8 < N_VALID)
+}
 
 pub fn path_text(p: &[u8]) -> String {
     p.iter().map(|s| SEGS[*s as usize % SEGS.len()]).collect::<Vec<_>>().join("::")
 }
 
-/// Every path up to `MAX_DEPTH` segments as a leaked `&'static str` (bounded: 55 986 strings, built once).
+/// Every path up to `POOL_DEPTH` segments as a leaked `&'static str` (bounded: 22 620 strings, built once).
 fn static_pool() -> &'static Vec<Vec<&'static str>> {
     static POOL: OnceLock<Vec<Vec<&'static str>>> = OnceLock::new();
     POOL.get_or_init(|| {
         let mut by_depth: Vec<Vec<&'static str>> = vec![vec![""]];
-        for d in 1..=MAX_DEPTH {
+        for d in 1..=POOL_DEPTH {
             let mut level = Vec::with_capacity(SEGS.len().pow(d as u32));
             for prefix in &by_depth[d - 1] {
                 for seg in SEGS {
@@ -47,6 +59,18 @@ fn static_pool() -> &'static Vec<Vec<&'static str>> {
 
 pub fn static_path(p: &[u8]) -> &'static str {
     assert!(!p.is_empty() && p.len() <= MAX_DEPTH);
+    if p.len() > POOL_DEPTH {
+        // deep module paths: interned on demand (bounded by the number of distinct paths ever asked for)
+        static DEEP: OnceLock<std::sync::Mutex<std::collections::HashMap<Vec<u8>, &'static str>>> = OnceLock::new();
+        let mut deep = DEEP.get_or_init(Default::default).lock().unwrap();
+        let key: Vec<u8> = p.iter().map(|s| *s % SEGS.len() as u8).collect();
+        if let Some(s) = deep.get(&key) {
+            return s;
+        }
+        let s: &'static str = Box::leak(path_text(p).into_boxed_str());
+        deep.insert(key, s);
+        return s;
+    }
     let mut idx = 0usize;
     for s in p {
         idx = idx * SEGS.len() + (*s as usize % SEGS.len());
@@ -186,8 +210,10 @@ pub trait Lvl: for<'a> FromValue<'a> + Ord + Default + Sized + 'static {
     /// the event's level on the model scale: `Some(Some(l))` recognised, `Some(None)` no recognisable
     /// level (unleveled), `None` = the property leaves it open
     fn ref_event_level(v: &LvlVal) -> Option<Option<u8>>;
-    fn map_from_iter(items: Vec<(Path<'static>, MinLevelFilter<Self>)>) -> MinLevelPathMap<Self> {
-        items.into_iter().collect()
+    /// `emit::level::min_by_path_filter` only exists at `Level`; `None` elsewhere
+    fn min_by_path_filter(items: Vec<(Path<'static>, MinLevelFilter<Self>)>) -> Option<MinLevelPathMap<Self>> {
+        let _ = items;
+        None
     }
 }
 
@@ -208,8 +234,8 @@ impl Lvl for Level {
             },
         }
     }
-    fn map_from_iter(items: Vec<(Path<'static>, MinLevelFilter<Level>)>) -> MinLevelPathMap<Level> {
-        emit::level::min_by_path_filter(items)
+    fn min_by_path_filter(items: Vec<(Path<'static>, MinLevelFilter<Level>)>) -> Option<MinLevelPathMap<Level>> {
+        Some(emit::level::min_by_path_filter(items))
     }
 }
 
@@ -432,6 +458,35 @@ pub struct MapCase {
     /// permutation of the (last-wins de-duplicated) registrations for the second build
     pub perm: Vec<u32>,
     pub queries: Vec<Query>,
+    /// construction route of the FIRST build: 0 = legacy (`from_iter` decides between 2 and 1), 1 = `.min_level()`
+    /// calls in the given order, 2 = `min_by_path_filter(iter)`, 3 = `iter.collect::<MinLevelPathMap<_>>()`,
+    /// 4 = `MinLevelPathMap::from_iter(iter)`, 5 = mix: `from_iter` over the first `mix_at` registrations, then
+    /// `.default_min_level()` / `.min_level()` for the rest
+    #[serde(default)]
+    pub route: u8,
+    #[serde(default)]
+    pub mix_at: u32,
+}
+
+#[derive(Debug, Clone, Copy, PartialEq, Eq)]
+pub enum Route {
+    MinLevel,
+    MinByPathFilter,
+    Collect,
+    FromIter,
+    Mix,
+}
+
+impl MapCase {
+    pub fn route(&self) -> Route {
+        match (self.route % 6, self.from_iter) {
+            (0, false) | (1, _) => Route::MinLevel,
+            (0, true) | (2, _) => Route::MinByPathFilter,
+            (3, _) => Route::Collect,
+            (4, _) => Route::FromIter,
+            _ => Route::Mix,
+        }
+    }
 }
 
 pub fn module_of(regs: &[Reg], m: &ModuleSpec) -> Vec<u8> {
@@ -472,20 +527,58 @@ pub fn ref_lookup<'a>(regs: &'a [Reg], default: Option<&'a Filt>, module: &str) 
 }
 
 fn reg_path(r: &Reg) -> Path<'static> {
-    match r.flavor % 3 {
-        0 => Path::new_raw(static_path(&r.path)),
-        1 => Path::new_owned(path_text(&r.path)).expect("generated paths are valid"),
+    let valid = path_valid(&r.path);
+    match (r.flavor % 3, valid) {
+        (0, _) | (2, false) => Path::new_raw(static_path(&r.path)),
+        (1, true) => Path::new_owned(path_text(&r.path)).expect("generated paths are valid"),
+        (1, false) => Path::new_owned_raw(path_text(&r.path)),
         _ => Path::new(static_path(&r.path)).expect("generated paths are valid"),
+    }
+}
+
+fn items<L: Lvl>(regs: &[&Reg]) -> Vec<(Path<'static>, MinLevelFilter<L>)> {
+    regs.iter().map(|r| (reg_path(r), mk_filter::<L>(&r.filt))).collect()
+}
+
+/// Build through `route`. Returns the map and the route really taken (`min_by_path_filter` only exists at `Level`).
+fn build_route<L: Lvl>(regs: &[&Reg], default: Option<&Filt>, default_at: u32, route: Route, mix_at: u32) -> (MinLevelPathMap<L>, Route) {
+    use std::iter::FromIterator;
+    let with_default = |mut map: MinLevelPathMap<L>| {
+        if let Some(d) = default {
+            map.default_min_level(mk_filter::<L>(d));
+        }
+        map
+    };
+    match route {
+        Route::MinLevel => (build::<L>(regs, default, default_at, false), Route::MinLevel),
+        Route::MinByPathFilter => match L::min_by_path_filter(items::<L>(regs)) {
+            Some(map) => (with_default(map), Route::MinByPathFilter),
+            None => (with_default(items::<L>(regs).into_iter().collect::<MinLevelPathMap<L>>()), Route::Collect),
+        },
+        Route::Collect => (with_default(items::<L>(regs).into_iter().collect::<MinLevelPathMap<L>>()), Route::Collect),
+        Route::FromIter => (with_default(MinLevelPathMap::<L>::from_iter(items::<L>(regs))), Route::FromIter),
+        Route::Mix => {
+            let k = pick(mix_at, regs.len() + 1);
+            let mut map = MinLevelPathMap::<L>::from_iter(items::<L>(&regs[..k]));
+            // default before or after the remaining registrations, by `default_at`
+            let default_first = default_at & 1 == 0;
+            if let (Some(d), true) = (default, default_first) {
+                map.default_min_level(mk_filter::<L>(d));
+            }
+            for r in &regs[k..] {
+                map.min_level(reg_path(r), mk_filter::<L>(&r.filt));
+            }
+            if let (Some(d), false) = (default, default_first) {
+                map.default_min_level(mk_filter::<L>(d));
+            }
+            (map, Route::Mix)
+        }
     }
 }
 
 fn build<L: Lvl>(regs: &[&Reg], default: Option<&Filt>, default_at: u32, from_iter: bool) -> MinLevelPathMap<L> {
     if from_iter {
-        let mut map = L::map_from_iter(regs.iter().map(|r| (reg_path(r), mk_filter::<L>(&r.filt))).collect());
-        if let Some(d) = default {
-            map.default_min_level(mk_filter::<L>(d));
-        }
-        map
+        build_route::<L>(regs, default, default_at, Route::MinByPathFilter, 0).0
     } else {
         let mut map = MinLevelPathMap::<L>::new();
         let at = pick(default_at, regs.len() + 1);
@@ -522,7 +615,32 @@ pub fn check_map_case<L: Lvl>(c: &MapCase, cx: &mut Cx) -> Res {
     cx.class_if(c.regs.len() != dedup.len(), "repeated-registration");
     cx.class_if(c.default.is_some(), "map:with-default");
     cx.class_if(c.regs.is_empty(), "map:empty");
-    cx.class(if c.from_iter { "build:from-iter" } else { "build:incremental" });
+    // trie nodes = every prefix of a registered path; siblings where one name is the other plus a character
+    // that sorts below ':' are where whole-path string order and per-node segment order disagree
+    let mut nodes: Vec<&[u8]> = Vec::new();
+    for r in &dedup {
+        for d in 1..=r.path.len() {
+            if !nodes.contains(&&r.path[..d]) {
+                nodes.push(&r.path[..d]);
+            }
+        }
+    }
+    let seg = |i: u8| SEGS[i as usize % SEGS.len()];
+    let mut sib = false;
+    let mut sib_desc = false;
+    for n in &nodes {
+        for m in &nodes {
+            let (a, b) = (seg(n[n.len() - 1]), seg(m[m.len() - 1]));
+            if n.len() == m.len() && n[..n.len() - 1] == m[..m.len() - 1] && b.len() > a.len() && b.starts_with(a) && b[a.len()..].chars().next().map_or(false, |c| c < ':') {
+                sib = true;
+                sib_desc |= nodes.iter().any(|d| d.len() > n.len() && d[..n.len()] == **n);
+            }
+        }
+    }
+    cx.class_if(sib, "siblings:one-is-other-plus-char-below-colon");
+    cx.class_if(sib_desc, "siblings:one-is-other-plus-char-below-colon-with-descendant-of-shorter");
+    let regs_valid = c.regs.iter().all(|r| path_valid(&r.path));
+    cx.class_if(!regs_valid, "paths:invalid-identifier-registered(open)");
     // second build: the de-duplicated registrations permuted (Fisher-Yates driven by `perm`)
     let mut permuted = dedup.clone();
     for i in 0..permuted.len() {
@@ -534,14 +652,27 @@ pub fn check_map_case<L: Lvl>(c: &MapCase, cx: &mut Cx) -> Res {
 
     let built = catch(|| {
         (
-            build::<L>(&regs_all, c.default.as_ref(), c.default_at.0, c.from_iter),
+            build_route::<L>(&regs_all, c.default.as_ref(), c.default_at.0, c.route(), c.mix_at),
             build::<L>(&permuted, c.default.as_ref(), c.default_at.1, false),
         )
     });
-    let (map1, map2) = match built {
+    let ((map1, route), map2) = match built {
         Ok(m) => m,
+        Err(_) if !regs_valid => {
+            // invalid paths: "code that uses path segments may panic or produce unexpected results"
+            cx.dont_care();
+            return Ok(());
+        }
         Err(p) => return cx.fail("map/build-panics", format!("building the map panicked: {} for {c:?}", p.msg)),
     };
+    cx.class(match route {
+        Route::MinLevel => "route:min_level",
+        Route::MinByPathFilter => "route:min_by_path_filter",
+        Route::Collect => "route:collect",
+        Route::FromIter => "route:from-iter",
+        Route::Mix => "route:mix",
+    });
+    cx.class_if(route != Route::MinLevel && sib_desc, "route:iterator-built+siblings-below-colon-with-descendant");
 
     let mut nontrivial = false;
     for q in &c.queries {
@@ -574,15 +705,28 @@ pub fn check_map_case<L: Lvl>(c: &MapCase, cx: &mut Cx) -> Res {
             (Some(_), _) => "governed-by:registered-path",
         });
 
+        let valid = regs_valid && path_valid(&mp);
         let owned_text;
-        let module: Path<'_> = match q.mflavor % 3 {
-            0 => Path::new_raw(static_path(&mp)),
-            1 => {
+        let module: Path<'_> = match (q.mflavor % 3, path_valid(&mp)) {
+            (0, _) => Path::new_raw(static_path(&mp)),
+            (1, true) => {
                 owned_text = mtext.clone();
                 Path::new_ref(&owned_text).expect("generated paths are valid")
             }
-            _ => Path::new_owned(mtext.clone()).expect("generated paths are valid"),
+            (1, false) => {
+                owned_text = mtext.clone();
+                Path::new_ref_raw(&owned_text)
+            }
+            (_, true) => Path::new_owned(mtext.clone()).expect("generated paths are valid"),
+            (_, false) => Path::new_owned_raw(mtext.clone()),
         };
+        if !valid {
+            // behaviour on invalid paths is documented as undefined (may even panic): executed, nothing asserted
+            let _ = catch(|| with_event(&module, &q.ev, |evt| (map1.matches(evt), map2.matches(evt))));
+            cx.dont_care();
+            cx.class("outcome:open(invalid-path)");
+            continue;
+        }
 
         // is_child_of agrees with the reference for every registered path (the map's documented basis)
         for r in &dedup {
@@ -601,7 +745,7 @@ pub fn check_map_case<L: Lvl>(c: &MapCase, cx: &mut Cx) -> Res {
             cx,
             g1 == g2,
             "map/registration-order-changes-outcome",
-            "module {mtext:?} lvl {:?}: map built in given order says {g1}, the same registrations (last-wins de-duplicated, permuted: {:?}) say {g2}; regs {:?} default {:?}",
+            "module {mtext:?} lvl {:?}: map built in given order through {route:?} says {g1}, the same registrations (last-wins de-duplicated, permuted: {:?}) say {g2}; regs {:?} default {:?}",
             q.ev.lvl,
             permuted.iter().map(|r| path_text(&r.path)).collect::<Vec<_>>(),
             c.regs.iter().map(|r| (path_text(&r.path), &r.filt)).collect::<Vec<_>>(),
@@ -618,7 +762,7 @@ pub fn check_map_case<L: Lvl>(c: &MapCase, cx: &mut Cx) -> Res {
                     cx,
                     g1 == w,
                     if w { "map/rejects-qualifying-event" } else { "map/accepts-below-minimum" },
-                    "MinLevelPathMap<{}>: module {mtext:?} lvl {:?}: got {g1}, reference {w} (governing filter {governing:?}); regs {:?} default {:?}",
+                    "MinLevelPathMap<{}> built through {route:?}: module {mtext:?} lvl {:?}: got {g1}, reference {w} (governing filter {governing:?}); regs {:?} default {:?}",
                     L::NAME,
                     q.ev.lvl,
                     c.regs.iter().map(|r| (path_text(&r.path), &r.filt)).collect::<Vec<_>>(),
@@ -642,15 +786,23 @@ pub struct SmallMap {
     pub config: u16,
     pub default_warn: bool,
     pub reverse: bool,
+    /// 0 = paths over {a, aa}; 1 = the same shapes over {a, a2} (a name and the name plus a digit)
+    #[serde(default)]
+    pub family: u8,
+    /// 0 = `.min_level()` calls, 1 = `min_by_path_filter`
+    #[serde(default)]
+    pub route: u8,
 }
 
 pub fn check_small_map(c: &SmallMap, cx: &mut Cx) -> Res {
     let mut regs = Vec::new();
     let mut k = c.config;
+    // family 1 swaps segment `aa` (1) for `a2` (6)
+    let fam = |p: &[u8]| -> Vec<u8> { p.iter().map(|s| if c.family % 2 == 1 && *s == 1 { 6 } else { *s }).collect() };
     for p in SMALL_PATHS {
         match k % 3 {
-            1 => regs.push(Reg { path: p.to_vec(), filt: Filt { min: 0, unleveled: None }, flavor: 0 }),
-            2 => regs.push(Reg { path: p.to_vec(), filt: Filt { min: 3, unleveled: None }, flavor: 1 }),
+            1 => regs.push(Reg { path: fam(p), filt: Filt { min: 0, unleveled: None }, flavor: 0 }),
+            2 => regs.push(Reg { path: fam(p), filt: Filt { min: 3, unleveled: None }, flavor: 1 }),
             _ => {}
         }
         k /= 3;
@@ -660,13 +812,13 @@ pub fn check_small_map(c: &SmallMap, cx: &mut Cx) -> Res {
     }
     let default = c.default_warn.then_some(Filt { min: 2, unleveled: None });
     let refs: Vec<&Reg> = regs.iter().collect();
-    let map = build::<Level>(&refs, default.as_ref(), if c.reverse { 0 } else { u32::MAX }, false);
+    let map = build::<Level>(&refs, default.as_ref(), if c.reverse { 0 } else { u32::MAX }, c.route % 2 == 1);
     cx.nontrivial(regs.len() >= 2);
     // all modules of depth <= 3 over {a, aa} x four levels
     let mut modules: Vec<Vec<u8>> = Vec::new();
     for d in 1..=3usize {
         for n in 0..(1usize << d) {
-            modules.push((0..d).map(|i| ((n >> i) & 1) as u8).collect());
+            modules.push(fam(&(0..d).map(|i| ((n >> i) & 1) as u8).collect::<Vec<u8>>()));
         }
     }
     for mp in &modules {
@@ -829,7 +981,23 @@ pub mod fuzz {
         for _ in 0..nq {
             queries.push(Query { module: module_spec(u)?, mflavor: u.int_in_range(0..=2)?, ev: ev_level(u, numeric)? });
         }
-        Ok(MapCase { regs, default, default_at, from_iter, perm, queries })
+        // trailing bytes (exhausted input = zeros = the legacy meaning): construction route, mix split, and a mask that
+        // turns the last segment of registration i into its digit sibling (a -> a2, aa -> aa1, b -> b9)
+        let route = u.int_in_range(0..=5)?;
+        let mix_at = idx(u)?;
+        let digit_mask: u16 = u.arbitrary()?;
+        for (i, r) in regs.iter_mut().enumerate() {
+            if digit_mask >> i & 1 == 1 {
+                let last = r.path.last_mut().unwrap();
+                *last = match *last {
+                    0 => 6,
+                    1 => 7,
+                    2 => 8,
+                    s => s,
+                };
+            }
+        }
+        Ok(MapCase { regs, default, default_at, from_iter, perm, queries, route, mix_at })
     }
 
     pub fn filter_case(u: &mut Unstructured, max: u8, numeric: bool) -> Result<FilterCase> {
